@@ -122,6 +122,9 @@ pub fn gen_flow_function(r: &mut Rng, fo: &FlowOpts) -> FlowCase {
             }
         }
     }
+    // minimisation protocol (`--keep p0,p1,..`, notes/minimisation.md): the function was generated exactly as usual;
+    // instructions whose running position is not kept become `nop` (indices, edges, pool unchanged)
+    nop_dropped(&mut f, 0);
     // feature tags
     let g = f.control_flow_graph();
     if g.edges().iter().any(|e| e.head() >= e.tail()) { tags.insert("loop".into()); }
